@@ -214,6 +214,11 @@ func garbageFor(t *core.Tape, genuine [][]byte) []byte {
 	if len(b) > 0 {
 		b[t.Intn(minI(2, len(b)))] ^= 1 << uint(t.Intn(8))
 	}
+	if len(b) >= 2 && t.Chance(1, 4) {
+		v := []uint16{0xFFFF, 0xFFFE, 0x0000, 0x8000}[t.Intn(4)]
+		i := t.Intn(len(b) - 1)
+		b[i], b[i+1] = byte(v>>8), byte(v)
+	}
 	if len(b) > 1 && t.Bool() {
 		b = b[:1+t.Intn(len(b)-1)]
 	}
